@@ -473,7 +473,7 @@ static void runScenario(const Scenario& sc, uint64_t idx)
       return s;
    };
    vector<string> createdFiles, setEnvs;
-   string status = "ok", etype, ewhat;
+   string status = "ok", etype, ewhat, addFails;
    bool useGroups = false;
    int groupFlags = 0;
    std::unique_ptr<Handler> single;
@@ -487,7 +487,7 @@ static void runScenario(const Scenario& sc, uint64_t idx)
    auto report = [&]() {
       string r = "R " + sc.id + " " + status + " " + hexs(etype) + " " + hexs(ewhat) + " |";
       for (auto const& n : slotOrder) r += " " + n + "=" + slots[n]->dump();
-      r += " | O=" + hexs(out.str()) + " X=" + hexs(err.str());
+      r += " | O=" + hexs(out.str()) + " X=" + hexs(err.str()) + " T=" + (addFails.empty() ? string("-") : addFails);
       puts(r.c_str());
    };
 
@@ -505,6 +505,18 @@ static void runScenario(const Scenario& sc, uint64_t idx)
             cur = members.back().get();
          }
          else if (c == "I") getSlot(t[1])->init(split(unhexf(t.size() > 2 ? t[2] : "-"), '\x1f'));
+         else if (c == "AT")
+         {
+            // add-try (C05): a refused definition is recorded, the scenario continues
+            if (!cur) { single.reset(new Handler(out, err, 0)); cur = single.get(); }
+            SlotBase* s = getSlot(t[1]);
+            try
+            {
+               TypedArgBase* a = cur->addArgument(unhexf(t[2]), s->dest(t[1]), unhexf(t[3]));
+               for (size_t i = 4; i < t.size(); ++i) applyOpt(a, s, t[i], *cur);
+            }
+            catch (const std::exception& e) { addFails += (addFails.empty() ? "" : ",") + t[1] + ":" + vh::hex(excName(e)); }
+         }
          else if (c == "A")
          {
             if (!cur) { single.reset(new Handler(out, err, 0)); cur = single.get(); }
